@@ -239,3 +239,36 @@ def replay(path):
         return 1 if r.fails else 0
     finally:
         work.cleanup()
+
+
+# ----------------------------------------------------------------------------------------
+@check("C09")
+def c09(work, tier, seed):
+    rep = Report("C09", tier, seed)
+    vh = vlib.build_harness(work)
+    quick = tier == "quick"
+    cfg = vlib.cfg_text(constants={"K": 127, "KT": 6 if quick else 20}, invariants=["Closed"])
+    r = vlib.tlc(work, "MCScore", cfg, workers=4, timeout=1800, heap="4g")
+    vlib.need_tlc_ok(r, "MCScore")
+    rep.add_tlc(r)
+    rep.extra["mc_score"] = {"K": 127, "KT": 6 if quick else 20, "states": r.distinct}
+    shards = 8 if quick else 16
+
+    def one(i):
+        trace = work.path("scores%d.ndjson" % i)
+        vlib.run_harness(work, vh, ["scores", "-seed", seed, "-rand", 30 if quick else 300, "-shard", i, "-shards", shards, "-out", trace])
+        rr = vlib.validate_trace(work, "TraceScore", ["C09"], trace)
+        return rr
+    results = vlib.run_many(one, range(shards))
+    rep.traces = sum(r.nlines for r in results)
+    for r in results[:2]:
+        line = vlib.read_line(r.trace, 1)
+        rep.sample(line[:600] + " ...")
+    vlib.absorb_trace_results(rep, results)
+    n = rep.events
+    rep.exhaustive = True
+    rep.extra["pairs"] = n * n
+    rep.extra["domain"] = "lost, won, mate in k for every k in -127..127 \\ {0} (increment: |k| <= 126), 14 fixed float32 edge values, %d seeded random float32 values" % (30 if quick else 300)
+    rep.assumptions = ["NaN evaluations are outside the domain (C20 establishes evaluations are finite)",
+                       "the mate distance is an int8: IncrementMateDistance is judged for |k| <= 126"]
+    return rep.finish(work)
